@@ -101,15 +101,18 @@ impl Prop for C05 {
         match (tier, build) {
             (Tier::Quick, "fast") => 40_000,
             (Tier::Quick, "noprefetch") => 6_000,
+            (Tier::Quick, "asan") => 3_000,
             (Tier::Quick, _) => 15_000,
             (Tier::Thorough, "fast") => 200_000,
             (Tier::Thorough, "noprefetch") => 25_000,
+            (Tier::Thorough, "asan") => 15_000,
             (Tier::Thorough, _) => 50_000,
         }
     }
     fn builds(&self, _tier: Tier) -> Vec<&'static str> {
         // the crate feature `prefetch` must not matter for any answer: a smaller run without it
-        vec!["fast", "checked", "noprefetch"]
+        // `asan`: generated cases under AddressSanitizer
+        vec!["fast", "checked", "noprefetch", "asan"]
     }
     fn rule(&self) -> &'static str {
         "cases = (RSQVector256|RSQVector512, construction path with carrier integer type, quaternary content from explicit/weighted/run/periodic/rare-symbol/late-symbol generators, query plan seed); non-trivial = n > 256 and >= 2 symbols present; distinct = hash of the whole case"
@@ -248,11 +251,14 @@ impl Prop for C13 {
             .prop_map(|(start, ops)| QvbCase { start, ops })
             .boxed()
     }
+    fn builds(&self, _tier: Tier) -> Vec<&'static str> { vec!["fast", "checked", "asan"] }
     fn cases(&self, tier: Tier, build: &str) -> u32 {
         match (tier, build) {
             (Tier::Quick, "fast") => 30_000,
+            (Tier::Quick, "asan") => 4_000,
             (Tier::Quick, _) => 15_000,
             (Tier::Thorough, "fast") => 600_000,
+            (Tier::Thorough, "asan") => 40_000,
             (Tier::Thorough, _) => 300_000,
         }
     }
